@@ -186,6 +186,8 @@ class LinCombBool:
         Returns a LinComb
         Costs 2 constraints
         """
+        if mod != None:
+            raise ValueError("Cannot provide modulus")
         if isinstance(other, int):
             if other < 0:
                 raise ValueError("Exponent cannot be negative")
